@@ -5,6 +5,12 @@ T = "RsslVerif.Thm.C10."
 NUMERIC = ("Int:", "IntU32:", "IntU64:", "IntS64:", "Float:", "Float16:", "Float32:", "Float64:")
 
 
+KEY_NO_INTEGER_DIGITS = ("lexer.rs token_intermediate: a floating literal without integer digits (.5) is not one token: "
+                         "literal_float is tried only on a leading digit, so it is read as Period followed by the digits")
+KEY_UPPER_HEX_PREFIX = ("lexer.rs literal_int: the hexadecimal prefix 0X (upper case X) is not recognised: "
+                        "0X1F is read as the integer 0 followed by the identifier X1F")
+
+
 def _text(req):
     f = req.split("\t")
     try:
@@ -36,6 +42,14 @@ def finding_key(req, obs, detail):
     if re.search(r"\b[19]5ae43fd\b", d) and re.search(r"\b15ae43fe\b", d) and "07038531" in d and \
             (d.startswith("FAIL:emit Float") or d.startswith("FAIL:fmt Float")):
         return "formatter.rs format_literal: single 0x15ae43fd printed with f32 Display digits (7.038531e-26) reads back as 0x15ae43fe"
+    # C10.num: the two spelling families of the C numeral grammar that rssl's dispatcher does not read as one literal
+    if req.startswith("C10.num"):
+        if re.match(r"FAIL:numeral \.\d\S* is the one literal Float\S* (\d+) \d+ but was read as Period \1 \d+;", d):
+            return KEY_NO_INTEGER_DIGITS
+        if re.match(r"FAIL:numeral 0X[0-9a-fA-F]+[uUlL]{0,2} is the one literal Int\S* (\d+) \d+ but was read as Int:0 \1 \d+;Id:58", d) or \
+                re.match(r"FAIL:numeral 0X[0-9a-fA-F]+[uUlL]{0,2} does not fit the type its suffix names \(IntegerLiteralTooLarge at "
+                         r"\d+ expected\) but was read as (.*;)?Int:0 \d+ \d+;Id:58", d):
+            return KEY_UPPER_HEX_PREFIX
     if re.match(r"FAIL:panic (\S*/)?formatter/src/formatter\.rs:\d+: invalid msl$", d):
         return "panic formatter/src/formatter.rs fn write_infinity_f64: invalid msl"
     if "as_ptr_range" in d:
@@ -110,6 +124,15 @@ def search(ctx):
               "1.7976931348623158e308", "1.7976931348623159e308", "3.4028235677973366e38f", "1.00000005960464478f",
               "9007199254740993.0", "9007199254740993.0f", "16777217.0f", "1e400", "1e-400", "1.#INF", "0.#INF"]:
         add(t)
+    # one numeral, one token: every shape of the exponent part and the suffix on short digit strings
+    for whole in ["0", "1", "25"]:
+        for frac in ["", ".", ".5"]:
+            for ex in ["", "e5", "E5", "e+2", "E+2", "e-2", "E-2"]:
+                if frac == "" and ex == "":
+                    continue
+                for sfx in ["", "f", "F", "h", "H", "l", "L"]:
+                    for dl in ["", ";"]:
+                        out.append("C10.num\t%s\td%s" % ((whole + frac + ex + sfx).encode().hex(), dl.encode().hex()))
     # printing: every arm of format_literal / generate_literal on both generators
     lits = ["0", "7", "0x10", "017", "4294967295u", "1u", "0.5", "0.5f", "0.5h", "0.5L", "2.0", "2.0f", "2.0h", "2.0L",
             "1e30", "1e30f", "1e30h", "1e30L", "0.0", "0.0f", "1.#INF", "1.#INFf", "1.#INFh", "1.#INFL",
@@ -127,12 +150,13 @@ def search(ctx):
 SPEC = {
     "id": "C10",
     "gens": ["LexTables", "LitFormatTables", "SourceMapTables"],
-    "lean_modules": ["RsslVerif.Thm.C10"],
+    "lean_modules": ["RsslVerif.Thm.C10", "RsslVerif.Lemmas.LexNumeral", "RsslVerif.Lemmas.LexNumeralInt"],
     "theorems": [T + n for n in [
         "token_progress", "token_error_in_input", "token_no_panic", "spans_tile", "reemit_reproduces_input",
         "error_pos_in_range", "tokens_before_error_tile", "lexing_terminates", "read_never_panics",
         "literalIntWith_closed", "int_value_exact", "int_overflow_rejected", "int_rejected_only_when_too_large",
-        "literalInt_radix", "token_numeric_dispatch", "float_parts_shape_as_modelled", "lex_float_nearest", "nearest64_total", "nearest64_correct", "nearest64_zero",
+        "literalInt_radix", "token_numeric_dispatch", "numeric_dispatch_as_modelled", "numeral_is_one_token", "numeral_first_token_span", "numeral_int_is_one_token_partial",
+        "float_parts_shape_as_modelled", "lex_float_nearest", "nearest64_total", "nearest64_correct", "nearest64_zero",
         "nearest_correct_partial", "nearest_correct", "nearest_monotone", "nearest64_monotone",
         "nearest_exact_on_representable",
         "literal_tables_as_modelled", "msl_double_literal_rejected", "emit_int_exact", "emit_value_exact", "emit_whole_value_exact",
@@ -156,7 +180,16 @@ SPEC = {
                   "rejected with IntegerLiteralTooLarge at its first digit, and only then. Float literals (full): token "
                   "bits = narrowOnce(suffix, nearest64(decimal text)), and nearest64 / nearestRat (exact Nat arithmetic) "
                   "are proved to be IEEE 754 round-to-nearest-ties-to-even, total, exact on representable values and "
-                  "monotone. Output (full, one stated assumption): format_literal is modelled arm by arm (arms, guards, "
+                  "monotone. One numeral, one token (maximal munch): every numeral of the decimal floating grammar "
+                  "digits '.' digits* [exp] [suffix] | digits exp [suffix], exp = (e|E)[+|-]digits, suffix = h H f F l L "
+                  "(inductive Numeral, unbounded digit counts, leading zeros, no fraction digits), followed by any text "
+                  "that does not continue it, is read by token_intermediate as exactly one token consuming exactly the "
+                  "numeral: the float literal of its suffix' kind with nearest64 of its digits and exponent "
+                  "(numeral_is_one_token, numeral_first_token_span; full for that grammar; `.5`-style numerals are a "
+                  "known finding, #INF is covered by the run only); decimal integer numerals with all 13 suffix "
+                  "spellings likewise (numeral_int_is_one_token_partial: octal and hexadecimal numerals are covered by "
+                  "the run only). The digit arm of token_intermediate is re-extracted every run and must be exactly "
+                  "`literal_float, else literal_int on OtherTokenBytes` (numeric_dispatch_as_modelled). Output (full, one stated assumption): format_literal is modelled arm by arm (arms, guards, "
                   "format strings, write_infinity_*, generate_literal of both generators and parse_literal re-extracted "
                   "every run); the printed text of an integer literal lexes back to the same kind and value "
                   "(emit_int_exact); of a finite float of any kind to the same kind and bits (emit_value_exact) assuming "
@@ -177,7 +210,14 @@ SPEC = {
             "endings and splices, every decimal exponent -345..325 in every spelling of the exponent part, and a numeric "
             "stream (integers of 3 bases up to 25 digits with 13 suffix spellings, boundary biased; decimal floats up to "
             "20+ significant digits, exponents -330..310 and far beyond, biased to halfway points, subnormals, overflow; "
-            "a dense fast-path boundary family); C10.emit: literals (random bit patterns of every float kind spelled "
+            "a dense fast-path boundary family); C10.num: one numeral of the C numeral grammar (built structurally: "
+            "4 integer prefix classes x 13 suffix spellings x boundary / random bodies up to 25 digits; floats with or "
+            "without integer digits, leading zeros, with or without point / fraction digits, exponent letter e|E x sign "
+            "none|+|- x digits, #INF, suffix none|h|H|f|F|l|L — a systematic product of 7.3 k numerals every run plus "
+            "10 k (thorough 300 k) random ones) followed by one of 37 followers and optionally preceded by one of 26 "
+            "texts: an independent scanner decides from the spelling which ONE token it is (kind, exact value by the "
+            "big-integer reference) and the real lexer must return exactly that token with exactly the numeral's span, or "
+            "IntegerLiteralTooLarge at its first digit when it does not fit; C10.emit: literals (random bit patterns of every float kind spelled "
             "exactly, all integer spellings) x targets dx/vk/msl x 14 contexts (statement, unary minus, typed "
             "initialisers, array size, enum value, enum cast, template argument, macro from an included file, define "
             "passed to compile, ## paste) through rssl::compile, printed literal re-read by an exact reference; C10.fmt: "
@@ -195,7 +235,11 @@ SPEC = {
         "Lean 4.33 kernel; axioms propext / Classical.choice / Quot.sound only (audited by #print axioms)",
         "tools/gens/c10.py (LexTables: Token variants, is_whitespace, LexerErrorReason, any_word arms, choose lists, "
         "symbol_single / symbol_op_or_op_equals instances, int_type / float_type arms) — re-run on /repo every time",
-        "hand-written Model/Lexer.lean mirrors lexer.rs; tied to the code by the correspondence run only",
+        "hand-written Model/Lexer.lean mirrors lexer.rs; tied to the code by the correspondence run, and for the digit "
+        "arm of token_intermediate and calculate_float64_from_parts also by shape obligations (numeric_dispatch_as_modelled, "
+        "float_parts_shape_as_modelled)",
+        "harness/src/c10_num.rs: the numeral grammar (C integer / floating constants + HLSL's h suffix and #INF) as the "
+        "harness reads it: our reading of which texts are ONE numeric literal",
         "Rust str::parse::<f64> and `f64 as f32` are trusted to be correctly rounded; the run compares them bit for bit "
         "with Spec/Dec2Bin.lean (exact Nat arithmetic) and with the harness' independent big-integer bisection",
         "Spec/Dec2Bin.lean and Spec/Lexer.lean: our reading of 'nearest double' and 'spans tile the file'",
@@ -211,6 +255,8 @@ SPEC = {
     "assumptions": [
         "files are shorter than 2^32 bytes (SourceManager::add_file asserts it), so `as u32` on offsets is exact",
         "the input is valid UTF-8 (TokenStream::new takes &str)",
+        "numerals are those of the C grammar: `1f` / `1h` (HLSL accepts them; rssl reads Int 1, Id f), `08`, `0189` are "
+        "not numerals and are not judged; `.5` and `0X1F` are numerals and are the two known findings of C10.num",
         "output clause: the emitted text is read with the literal grammar of rssl itself (nearest double, narrowed once "
         "for f/h); what DXC or the Metal compiler make of a literal is outside the property; MSL names INFINITY / FLT_MAX "
         "stand for their values",
